@@ -74,7 +74,7 @@ RF_VARIANTS = [("%s,meta_only=%s,keep_open=%s" % (k, m, o), (k, m, o)) for k in 
                                  "common.ObjectPath.from_string", "common.ObjectPath.__init__",
                                  "common.ObjectPath.group_path", "common._path_components",
                                  "common._components_to_path"],
-         ["C01", "C16", "C03"], variants=RF_VARIANTS, setup=_setup_read_file, level="shape-bounded",
+         ["C01", "C16", "C03", "C13"], variants=RF_VARIANTS, setup=_setup_read_file, level="shape-bounded",
          bound="8 concrete object lists (orderings of root / groups / channels, undeclared groups, names with "
                "quotes, slashes and empty strings); lengths and types symbolic")
 def _read_file(vc):
